@@ -2053,6 +2053,78 @@ var sepProps = []string{"border-image", "border-image-slice", "border-image-widt
 var sepAtoms = []string{"1", "2", "0", "10%", "5px", "1em", "auto", "fill", "stretch", "repeat", "round", "url(x)", "url(data:,)", "none", "red", "a", "span 2",
 	"center", "left", "top", "cover", "contain", "bold", "italic", "12px", "serif", "\"a\"", "1fr", "linear-gradient(red,blue)", "1s", "ease", "normal", "-1", "1.5", "calc(1px + 1%)", "var(--x)"}
 
+// sepCase: the systematic part — for every property with separators, every shape
+// "a tokens SEP b tokens [SEP c tokens]" with a<=5, b<=2, c<=1 (2-9 tokens), the second separator
+// possibly doubled, filled with 1 / a keyword / random atoms / a leading url(): this reaches every
+// "value cut right after the n-th separator" whatever the number of tokens (some slice-capacity
+// dependent bugs only show for particular token counts).
+type sepCase struct {
+	name, sep string
+	a, b, c   int // c = -1: a single separator
+	dbl, mode int
+}
+
+func (c sepCase) value(r *rng.R) string {
+	atom := func(first bool) string {
+		switch c.mode {
+		case 0:
+			return "1"
+		case 1:
+			return rng.Pick(r, "auto", "1", "2", "10%", "5px", "fill", "span", "a")
+		case 2:
+			if first {
+				return "url(x)"
+			}
+			return "1"
+		}
+		return rng.Pick(r, sepAtoms...)
+	}
+	var toks []string
+	for i := 0; i < c.a; i++ {
+		toks = append(toks, atom(i == 0))
+	}
+	toks = append(toks, c.sep)
+	if c.dbl == 1 {
+		toks = append(toks, c.sep)
+	}
+	for i := 0; i < c.b; i++ {
+		toks = append(toks, atom(false))
+	}
+	if c.c >= 0 {
+		toks = append(toks, c.sep)
+		if c.dbl == 2 {
+			toks = append(toks, c.sep)
+		}
+		for i := 0; i < c.c; i++ {
+			toks = append(toks, atom(false))
+		}
+	}
+	return strings.Join(toks, " ")
+}
+
+var sepCases = func() []sepCase {
+	var out []sepCase
+	for _, name := range sepProps {
+		for _, sep := range []string{"/", ","} {
+			for a := 0; a <= 5; a++ {
+				for b := 0; b <= 2; b++ {
+					for c := -1; c <= 1; c++ {
+						for dbl := 0; dbl <= 2; dbl++ {
+							if c < 0 && dbl == 2 {
+								continue
+							}
+							for mode := 0; mode <= 3; mode++ {
+								out = append(out, sepCase{name, sep, a, b, c, dbl, mode})
+							}
+						}
+					}
+				}
+			}
+		}
+	}
+	return out
+}()
+
 func sepValue(g *cssGen) string {
 	r := g.r
 	sep := rng.Pick(r, "/", "/", "/", ",", ",", "/ ,")
@@ -2171,6 +2243,7 @@ func runSearchLocal(tier string, seed uint64, repo string, out *res.Result, iso 
 	svgRun := func(in string) bool { return runSVG(in, true) }
 	svgShrink := func(in string) bool { return runSVG(in, false) }
 
+	sepIdx := 0
 	groups := []group{
 		{name: "validate", n: 100000, base: func(r *rng.R) []job {
 			g := &cssGen{r, d}
@@ -2218,6 +2291,11 @@ func runSearchLocal(tier string, seed uint64, repo string, out *res.Result, iso 
 			m := j
 			m.body = mutateText(r, j.body, cssInserts)
 			return one(m)
+		}},
+		{name: "validate-separators", n: 2 * len(sepCases), batch: 8000, base: func(r *rng.R) []job {
+			c := sepCases[sepIdx%len(sepCases)]
+			sepIdx++
+			return one(job{op: "validate:" + c.name, prefix: c.name + ":", body: c.value(r), run: runValidate})
 		}},
 		{name: "font-face-descriptors", n: 15000, base: simple("font-face-descriptors", runFontFace, func(g *cssGen) string { return g.fontFaceDecls() })},
 		{name: "counter-style-descriptors", n: 15000, base: simple("counter-style-descriptors", runCounterDescriptors, func(g *cssGen) string { return g.counterStyleDecls(false) })},
